@@ -159,3 +159,48 @@ HARNESS(h_ks_create) {
     delete_LweKeySwitchKey(ks); delete_LweKey(kout); delete_LweKey(kin); delete_LweParams(po); delete_LweParams(pi);
     symx_witness();
 }
+
+/* Q2': the digit extraction of lweKeySwitchTranslate_fromArray for EVERY valid layout (basebit up to 31), all 2^32 values of
+   the mask coefficient. The subtraction it calls is replaced by a recorder that identifies the selected row from the pointer
+   alone, so the t*2^basebit rows need no storage of their own (one never-dereferenced array object). */
+void lweKeySwitchTranslate_fromArray(LweSample *result, const LweSample ***ks, const LweParams *params, const Torus32 *ai,
+                                     const int32_t n, const int32_t t, const int32_t basebit);
+static const LweSample *tr_raw = 0;
+static uint32_t tr_atilde = 0;
+static int tr_calls = 0, tr_bad = 0, tr_lastj = -1;
+extern "C" void STUBNAME(lweSubTo)(LweSample *result, const LweSample *sample, const LweParams *params) {
+    long idx = (long) (sample - tr_raw);
+    if (idx < 0 || idx >= (long) KT * KBASE) { tr_bad = 1; return; }
+    int j = (int) (idx / KBASE);
+    uint32_t h = (uint32_t) (idx % KBASE);
+    if (h == 0 || j <= tr_lastj) tr_bad = 1;           /* row h=0 is never used; one row per digit position, in order */
+    tr_lastj = j;
+    tr_atilde += h << (32 - (j + 1) * KBB);
+    tr_calls++;
+}
+HARNESS(h_translate_rounding) {
+    LweParams *po = new_LweParams(1, 0.0, 1.0);
+    LweSample *res = new_LweSample(po);
+#if KBB <= 16
+    LweSample *raw = (LweSample *) malloc(sizeof(LweSample) * (size_t) KT * KBASE);   /* never read */
+#else
+    /* 2^basebit rows per digit do not fit an allocation any more: an address range that is never dereferenced */
+    LweSample *raw = (LweSample *) (uintptr_t) 0x10000;
+#endif
+    const LweSample **lvl1 = (const LweSample **) malloc(sizeof(LweSample *) * KT);
+    for (int j = 0; j < KT; j++) lvl1[j] = raw + (size_t) j * KBASE;
+    const LweSample ***ks = (const LweSample ***) malloc(sizeof(LweSample **));
+    ks[0] = lvl1;
+    tr_raw = raw; tr_atilde = 0; tr_calls = 0; tr_bad = 0; tr_lastj = -1;
+    Torus32 ai[1];
+    uint32_t a = nondet_u32();
+    ai[0] = (Torus32) a;
+    lweKeySwitchTranslate_fromArray(res, ks, po, ai, 1, KT, KBB);
+    CHECK(!tr_bad, "C08 digit extraction: one row per digit position, never row h=0, index inside the key");
+    symx_observe(tr_atilde);
+    int64_t d = (int64_t) (int32_t) (a - tr_atilde);
+    int64_t bound = (int64_t) 1 << (31 - KT * KBB);
+    CHECK(d >= -bound && d <= bound - CANARY * bound, "C08 digit extraction rounds to nearest: |a - a~| <= 2^(31-t*basebit), every valid layout");
+    for (int j = 0; j < KT; j++) (void) 0;
+    symx_witness();
+}
